@@ -644,7 +644,7 @@ oscore_add_recipient(oscore_ctx_t *osc_ctx, coap_bin_const_t *rid,
   while (rcp_ctx) {
     if (rcp_ctx->recipient_id->length == rid->length &&
         memcmp(rcp_ctx->recipient_id->s, rid->s, rid->length) == 0) {
-      coap_delete_bin_const(rid);
+      /* As on every other failure, rid stays with the caller */
       return NULL;
     }
     rcp_ctx = rcp_ctx->next_recipient;
